@@ -58,6 +58,15 @@ P = {
  "C19": ("proptest + exhaustive sweeps (all lengths, all byte values, all two-digit spellings, every byte value as intruder) of CLI hex encode/decode against an independent decoder written from the property, over stdin/-/file channels",
          "Exploration: encode prints 0x + lower-case digits; decode inverts it byte-exactly; all white-space/case/prefix layouts decode equally; odd or non-hex input fails with empty stdout.",
          "Non-ASCII white space, white space inside the prefix and 0X are unspecified."),
+ "C12": ("fault injection at getentropy: in-process scripted outcomes per call (byte patterns, one-bit-from-previous, EIO/EINTR/ENOSYS) for every length 0..40 and beyond; LD_PRELOAD shim with deterministic logged stream and failure at call k for `new` and the vanity search, judged by the BIP-39 reference; real-entropy distinctness runs",
+         "Fault enumeration / exploration: for every supported length exactly one request of 4L/3 bytes, phrase == reference encoding of exactly the delivered bytes, parses back; unsupported lengths and every injected failure give an error with nothing printed; vanity search with failure from call k prints exactly the first matching block among 0..k-1 or fails.",
+         "The interposer sees only hdwallet's own requests (Rust std does not use getentropy on Linux); a hang after an injected failure is reported as inconclusive."),
+ "C16": ("CLI differential: exhaustive subcommand x selector x flag-or-env matrix plus generated configurations (mnemonic, Unicode passphrase, index/path, option spelling, file/stdin channel, payload) against the reference stack end to end; flag-vs-environment twin runs",
+         "Exploration: every subcommand prints exactly the reference result for the selected account (address, key, public key, RFC 6979 signatures over the reference digests, hashes), sign/hash pairs agree, env and flags are interchangeable, both selectors together are refused.",
+         "Typed-data payloads are kept simple here (C08/C09 own the typed-data space); clap's own option parsing is trusted."),
+ "C18": ("CLI runs of the vanity search over all 16 single digits in both cases, 2- and 3-digit prefixes, thread counts 0/1/2/16, selectors and lengths, with a deterministic logged entropy shim (and real entropy / plain release build in thorough); schedule-independent oracle",
+         "Exploration: the printed line is a reference-valid phrase of the requested length whose reference-derived selected address starts with the requested digits, and its entropy is one of the logged blocks; non-hex prefixes are refused. Thread schedules are varied only by repetition, thread count and entropy stream.",
+         "The harness does not own the OS scheduler (DESIGN.md section 9); a defect needing one rare interleaving may be missed."),
 }
 BUILT = [k for k in sorted(P)]
 
